@@ -143,3 +143,52 @@ func VerifC14_PlantedBetweenOpens() {
 		res[0].File.Close()
 	}
 }
+
+// VerifC14_TwoBatches: two Open batches on one environment whose items differ in flags,
+// permissions and the MkdirAll option (symbolic, including zero values, which the wire
+// encoding omits): each item is opened with exactly its own flags and permissions, and
+// directories are created only for items that ask for it - nothing carries over from the
+// previous command at the same index.
+func VerifC14_TwoBatches() {
+	w := newWorld()
+	mk := func(tag string, path string) OpenCmd {
+		o := OpenCmd{Path: path}
+		if sym.Bool(tag + "_writes") {
+			o.Flag = 0x241 // O_WRONLY|O_CREAT|O_TRUNC
+			o.Perm = 0644
+		}
+		o.MkdirAll = sym.Bool(tag + "_mkdirall")
+		return o
+	}
+	w.quietFS = true
+	w.pathKind = map[string]int{"/w/x/a0": objAbsent, "/w/x/a1": objAbsent, "/w/y/b0": objAbsent, "/w/y/b1": objAbsent}
+	first := []OpenCmd{mk("a0", "/w/x/a0"), mk("a1", "/w/x/a1")}
+	second := []OpenCmd{mk("b0", "/w/y/b0"), mk("b1", "/w/y/b1")}
+	for _, batch := range [][]OpenCmd{first, second} {
+		w.openCalls, w.mkdirCalls = nil, nil
+		res, err := w.host.Open(batch)
+		if err != nil {
+			return
+		}
+		for _, r := range res {
+			if r.File != nil {
+				r.File.Close()
+			}
+		}
+		for _, oc := range w.openCalls {
+			for _, it := range batch {
+				if it.Path == oc.Path {
+					sym.Assert(oc.Flag == it.Flag && oc.Perm == it.Perm, "a file was opened with flags or permissions that are not those of its own request")
+				}
+			}
+		}
+		wantMkdir := false
+		for _, it := range batch {
+			wantMkdir = wantMkdir || it.MkdirAll
+		}
+		if !wantMkdir {
+			sym.Assert(len(w.mkdirCalls) == 0, "directories were created for a request that did not ask for it")
+		}
+	}
+	sym.Reach("both-batches")
+}
